@@ -8,11 +8,13 @@
                          6 ListValue : exactly one field, number 1, repeated Value
                          7 Value     : fields 1..6 = NullValue enum, double, string, bool, Struct, ListValue,
                                        all members of oneof 0
+                         8 FieldMask : exactly one field, number 1, repeated string
                          9 Empty     : no field
                        and a group-typed field never refers to a special type.
    json_valid2         json_valid (Json/JsonMsgValid.v) plus, for a Value: exactly one member is set and
                        a number_value is finite; for a Timestamp / Duration: the range conditions of
-                       marshalTimestamp / marshalDuration.
+                       marshalTimestamp / marshalDuration; for a FieldMask: every path is a valid full name
+                       whose lower-camel form converts back to it.
    codec_ok cd         round-trip hypotheses on the string forms that C22 / C23 own (base64, Timestamp,
                        Duration). *)
 From Coq Require Import List NArith ZArith Bool.
@@ -91,6 +93,18 @@ Definition secs_nanos_shape (fps : list fpair) : bool :=
   | _ => false
   end.
 
+(* FieldMask: repeated string paths = 1 *)
+Definition fieldmask_shape (fps : list fpair) : bool :=
+  match fps with
+  | [(fd, fn)] =>
+    (f_num fd =? 1) && plain_field fd
+    && match f_card fd, f_kind fd with
+       | CRep, KS SkString => true
+       | _, _ => false
+       end
+  | _ => false
+  end.
+
 Definition no_special_groups (nm : names) (fps : list fpair) : bool :=
   forallb (fun p => match f_kind (fst p) with KGrp t => wkt_of nm t =? 0 | _ => true end) fps.
 
@@ -105,6 +119,7 @@ Definition json_core2 (S : schema) (nm : names) : bool :=
     | 5 => struct_shape nm fps
     | 6 => listvalue_shape nm fps
     | 7 => value_shape nm fps
+    | 8 => fieldmask_shape fps
     | 9 => match fps with [] => true | _ => false end
     | _ => false
     end) (seq 0 (length S)).
@@ -130,6 +145,7 @@ Fixpoint json_valid2 (strict : bool) (eu : bool) (S : schema) (nm : names) (fuel
     && match wkt_of nm tid, v with
        | 2, VMsg fs _ => ts_in_range (get_z fs 1) (get_z fs 2)
        | 3, VMsg fs _ => dur_in_range (get_z fs 1) (get_z fs 2)
+       | 8, VMsg fs _ => forallb (fun x => match x with VS (SBy p) => fm_path_ok p | _ => false end) (msg_fget fs 1)
        | _, _ => true
        end
   end.
